@@ -191,6 +191,66 @@ def prove_equal(A, B, assumptions=(), timeout_ms=60000):
     return Verdict('unsat' if allunsat else 'unknown', seconds=time.time() - t0)
 
 
+_RANDPT = {}
+
+
+def _random_value(sym):
+    """deterministic pseudo-random small rational for a symbol (used only to REFUTE equivalence quickly)"""
+    n = sym.decl().name()
+    if n not in _RANDPT:
+        import hashlib
+        hsh = int(hashlib.sha1(n.encode()).hexdigest()[:8], 16)
+        _RANDPT[n] = z3.Q(1 + hsh % 17, 3 + (hsh // 17) % 11) * (1 if (hsh // 1000) % 2 else -1)
+    return _RANDPT[n]
+
+
+def differs_at_random_point(ds):
+    """True if some entry provably differs at a fixed pseudo-random rational point (then the arrays are NOT equivalent).
+    Only used when no axioms constrain the symbols involved (free inputs / stub outputs)."""
+    f = z3.Or(*[d for _, d in ds]) if len(ds) > 1 else ds[0][1]
+    syms = [e for e in _collect_consts(f)]
+    if not syms or len(syms) > 4000:
+        return False
+    if _has_div(f):
+        return False
+    sub = [(x, _random_value(x)) for x in syms]
+    try:
+        v = z3.simplify(z3.substitute(f, *sub))
+    except Exception:
+        return False
+    return z3.is_true(v)
+
+
+def _collect_consts(f):
+    seen, out, stack = set(), [], [f]
+    while stack:
+        t = stack.pop()
+        i = t.get_id()
+        if i in seen:
+            continue
+        seen.add(i)
+        if z3.is_const(t):
+            if t.decl().kind() == z3.Z3_OP_UNINTERPRETED:
+                out.append(t)
+        else:
+            stack.extend(t.children())
+    return out
+
+
+def _has_div(f):
+    seen, stack = set(), [f]
+    while stack:
+        t = stack.pop()
+        i = t.get_id()
+        if i in seen:
+            continue
+        seen.add(i)
+        if z3.is_app(t) and t.decl().kind() in (z3.Z3_OP_DIV, z3.Z3_OP_IDIV, z3.Z3_OP_UNINTERPRETED) and t.num_args() > 0:
+            return True
+        stack.extend(t.children())
+    return False
+
+
 def arrays_equivalent(A, B, timeout_ms=10000):
     if _np.shape(A) != _np.shape(B):
         return False
@@ -198,6 +258,14 @@ def arrays_equivalent(A, B, timeout_ms=10000):
     if not ds:
         return True
     if any(d is True for _, d in ds):
+        return False
+    ax_syms = set()
+    for a in state.S.axioms:
+        ax_syms |= _syms_of(a)
+    fsyms = set()
+    for _, d in ds:
+        fsyms |= _syms_of(d)
+    if not (fsyms & ax_syms) and differs_at_random_point(ds):
         return False
     f = z3.Or(*[d for _, d in ds]) if len(ds) > 1 else ds[0][1]
     s = _mk((), f)
